@@ -5,6 +5,7 @@
     - WHERE literal (rows)    src/engine/core/filter/condition_evaluator_builder.rs  add_where_clause
     - SINCE (rows)            ... add_special_fields
     - WHERE literal (planner) src/engine/core/filter/filter_group_builder.rs  normalize_temporal_literals
+    - field selector          src/engine/core/zone/selector/field_selector.rs  select_for_segment (temporal arm)
     - zone pruner             src/engine/core/zone/selector/pruner/temporal_pruner.rs  apply_temporal_only,
                               over the artifacts written by src/engine/core/time/temporal_builder.rs
                               (temporal_calendar_index.rs, zone_temporal_index.rs)
@@ -242,6 +243,21 @@ Definition prune_gen (guard clamps fallback : bool) (dflt : Z)
   end.
 Definition prune : bool -> cmpop -> scalar -> list zone -> option (list N) :=
   prune_gen tsite_cal_guard tsite_pruner_clamps tsite_pruner_u64_fallback tsite_pruner_unparsable.
+
+(** * The field selector on a temporal filter (field_selector.rs, select_for_segment):
+      the pruner's answer, or — when the pruner has no answer — every zone of the segment for
+      [!=] / IN ([tsite_selector_neq_all_zones], regenerated from the Rust text), else none. *)
+Definition op_unanswered (op : cmpop) : bool :=
+  match op with ONeq | OIn => true | _ => false end.
+
+Definition select_gen (neq_all : bool) (pr : option (list N)) (op : cmpop) (zones : list zone) : list N :=
+  match pr with
+  | Some ids => ids
+  | None => if neq_all && op_unanswered op then map z_id zones else []
+  end.
+
+Definition select_zones (is_timestamp : bool) (op : cmpop) (sv : scalar) (zones : list zone) : list N :=
+  select_gen tsite_selector_neq_all_zones (prune is_timestamp op sv zones) op zones.
 
 (** * Materialised queries: [delta_command] *)
 Definition parse_since_epoch (s : bytes) : option Z :=
